@@ -139,7 +139,7 @@ def rewrite(text, rnd):
     return chunks, f'{indent_mode},{"mixed" if eol == "mixed" else ("crlf" if eol != chr(10) else "lf")},{form}{len(cuts)}'
 
 
-FAILING = ['xx = 1 + \\', 'aa = fn(1, \\\n  2, \\', 'function ff():\n    aa = 1', 'if xx:', 'while xx:\n    yy = 1 \\', 'xx = (1 +', "xx = 'abc", 'for xx in yy:\nendif',
+FAILING = ['xx = ((((((((((1 +', 'yy = fn(fn(fn(fn(fn(fn(1 +', 'zz = (fn((fn((fn((1 @', 'ww = max(1, (2, (3, (4, (5 +', 'xx = 1 + \\', 'aa = fn(1, \\\n  2, \\', 'function ff():\n    aa = 1', 'if xx:', 'while xx:\n    yy = 1 \\', 'xx = (1 +', "xx = 'abc", 'for xx in yy:\nendif',
            'endfunction', 'else:', 'function ff():\n    if xx:\n        aa = 1 \\', 'function ff():\n    function gg():', 'lbl:\njumpif (xx lbl', 'break', 'xx = 1 +* 2',
            'for xx in yy:\n    continue \\', 'function ff(aa, aa):\n    return aa +\nendfunction', "include 'abc\nyy = 2"]
 
